@@ -116,6 +116,14 @@ static short read_short (ptrdiff_t offset) {
   return l;
 }
 
+/* The pending forward branches are chained through their (not yet known)
+ * operands: each holds the address of the previous one. An address is an
+ * unsigned 16 bit number; read as a short, one above 32767 comes back negative
+ * and the next update is done in front of the block. */
+static ptrdiff_t read_branch_link (ptrdiff_t offset) {
+  return (unsigned short) read_short (offset);
+}
+
 /**
  * Store a 4 byte number. It is stored in such a way as to be sure
  * that correct byte order is used, regardless of machine architecture.
@@ -1108,7 +1116,7 @@ i_generate_forward_branch (BYTE b)
 void
 i_update_forward_branch ()
 {
-  int i = read_short (current_forward_branch);
+  ptrdiff_t i = read_branch_link (current_forward_branch);
 
   end_pushes ();
   upd_short (current_forward_branch, (short)(CURRENT_PROGRAM_SIZE - current_forward_branch));
@@ -1126,7 +1134,7 @@ void i_update_forward_branch_links (BYTE kind, parse_node_t* link_start) {
   ptrdiff_t offset;
 
   end_pushes ();
-  offset = read_short (current_forward_branch);
+  offset = read_branch_link (current_forward_branch);
   upd_short (current_forward_branch,
              (short)(CURRENT_PROGRAM_SIZE - current_forward_branch));
   current_forward_branch = offset;
